@@ -90,6 +90,13 @@ CHECKS = {
              "dict_label_within_tol, selector_applies_own_transform (gather-by-label/apply/scatter equals the per-point specification for "
              "every batch). Tied by AST pins and by evaluating the model in Coq on the implementation's cases.",
         ref="5 C15", technique="Coq proof over hand-written executable model + AST pins + vm_compute correspondence"),
+    "C18": dict(
+        text="Theorems in exact arithmetic over a hand model of grid_from_bounding_box and of footprint's corner construction: "
+             "grid_first_last (starts at the lower limit, advances by the step, stops at the FIRST node reaching the upper limit, for "
+             "every box and positive step), centred_grid_is_overlapping_pixels (x.5 limits go to the pixel inside), product_corner / "
+             "product_length, clockwise_from_lower_left, footprint_axis_range. Tied by AST pins and by comparing, node for node and "
+             "corner for corner, with the model evaluated in Coq (corners observed through identity WCSs).",
+        ref="5 C18", technique="Coq proof over hand-written exact model + AST pins + vm_compute correspondence"),
 }
 
 NOT_YET = "check not built yet in this session (work in progress; see DESIGN.md section 10 build order)"
